@@ -316,6 +316,17 @@ static TickitRootWindow *_get_root(const TickitWindow *win)
   return WINDOW_AS_ROOT(win);
 }
 
+/* The focus chain below the root changed: the terminal cursor has to be
+ * re-established at the next flush even if nothing gets redrawn */
+static void _focus_chain_changed(TickitWindow *win)
+{
+  while(win && !win->is_root)
+    win = win->parent;
+
+  if(win)
+    _request_restore(WINDOW_AS_ROOT(win));
+}
+
 TickitWindow *tickit_window_new(TickitWindow *parent, TickitRect rect, TickitWindowFlags flags)
 {
   if(flags & TICKIT_WINDOW_ROOT_PARENT)
@@ -491,6 +502,7 @@ void tickit_window_show(TickitWindow *win)
     if(!win->parent->focused_child &&
        (win->focused_child || win->is_focused)) {
       win->parent->focused_child = win;
+      _focus_chain_changed(win->parent);
     }
   }
   tickit_window_expose(win, NULL);
@@ -504,6 +516,7 @@ void tickit_window_hide(TickitWindow *win)
     TickitWindow *parent = win->parent;
     if(parent->focused_child && (parent->focused_child == win)) {
       parent->focused_child = NULL;
+      _focus_chain_changed(parent);
     }
     tickit_window_expose(parent, &win->rect);
   }
@@ -930,8 +943,10 @@ static void _do_hierarchy_change(HierarchyChangeType change, TickitWindow *paren
       fmt = "Window " WINDOW_PRINTF_FMT " removes " WINDOW_PRINTF_FMT;
       _do_hierarchy_remove(parent, win);
       win->parent = NULL;
-      if(parent->focused_child && parent->focused_child == win)
+      if(parent->focused_child && parent->focused_child == win) {
         parent->focused_child = NULL;
+        _focus_chain_changed(parent);
+      }
       break;
     case TICKIT_HIERARCHY_RAISE:
       fmt = "Window " WINDOW_PRINTF_FMT " raises " WINDOW_PRINTF_FMT;
